@@ -51,8 +51,22 @@ impl PartialEq for VKey {
 }
 impl Eq for VKey {}
 
+thread_local! {
+    /// Called at the user-callback points of the cache (hashing a key, weighing an entry): the
+    /// `inject` component uses it to let another logical thread take a map step there.
+    pub static INJECT_HOOK: std::cell::Cell<Option<fn()>> = const { std::cell::Cell::new(None) };
+}
+
+#[inline]
+pub fn inject_point() {
+    if let Some(f) = INJECT_HOOK.with(|h| h.get()) {
+        f()
+    }
+}
+
 impl Hash for VKey {
     fn hash<H: Hasher>(&self, state: &mut H) {
+        inject_point();
         state.write_u64(self.0)
     }
 }
